@@ -349,8 +349,11 @@ class DirectCollocation(SamplingMethod):
         if len(margs)>0 and isinstance(margs[0], list) and np.all([isinstance(e,str) for e in margs[0]]):
             name_in = list(margs[0])
 
-        add_xc = depends_on(all_args, states) and not depends_on(all_args, self.Xc_vars)
-        add_zc = add_zc and not depends_on(all_args, self.Zc_vars_rest)
+        # With scaling, states and helper variables are expressions (scale*variable): look at their symbols
+        def sym(e):
+            return vvcat(ca.symvar(e))
+        add_xc = depends_on(all_args, sym(states)) and not depends_on(all_args, sym(self.Xc_vars))
+        add_zc = add_zc and not depends_on(all_args, sym(self.Zc_vars_rest))
         inner_args = list(args)
         if add_xc:
             inner_args += [self.Xc_vars]
